@@ -85,7 +85,8 @@ def run(ctx):
         # (`parse_list_with::<[SpanInfo; 2]>`) are judged by rule (ii) on what they pass on.
         payload = [n for n in nodes if any(pm in n["inst"] for pm in PAYLOAD_MARKERS_IN(n))
                    and (n["crate"] not in LOCAL or n["kind"] == "drop-glue" or lookup(db, n) is None
-                        or getattr(lookup(db, n), "derived", False))]
+                        or getattr(lookup(db, n), "derived", False))
+                   and not _fn_pointer_shim(n)]
         label = ", ".join(local_defs[:4]) if local_defs else short_inst(nodes[0]["inst"])
         if payload:
             all_drop = all(n["kind"] == "drop-glue" or n["def"].endswith("as std::ops::Drop>::drop") for n in nodes)
@@ -268,6 +269,14 @@ def drop_leaves_short_chain(ctx, lexpr):
                             "shape overflows the stack" % (what, max(left)), fn.loc())
     r.floor("drop-cases", n)
     r.floor("drop-decided", n - und)
+
+
+def _fn_pointer_shim(n):
+    """`<fn(&mut Parser, u8) -> Result<Option<(Cons, [SpanInfo; 2])>> as FnOnce<..>>::call_once`: calling a function
+    through a pointer.  The pair only occurs in the *signature* of the function called; the shim itself does nothing
+    with it, and the function it calls is a node of its own."""
+    import re
+    return bool(re.match(r"^<(for<[^>]*> )?(unsafe )?(extern \"[^\"]*\" )?fn\(", n["inst"]))
 
 
 def PAYLOAD_MARKERS_IN(n):
